@@ -97,7 +97,11 @@ def run(prop, tier, seed, replay=None):
     open(tiny, "w").close()
     core.tlc("Gen_TableRand", core.cfg_text(constants=dict(V=3, EMIN=3, EMAX=4, WSET={1, 1, 268435456, 402653184}, WD=268435456, DSET={1, 2}, EXTV=3, NSAMP=300),
                                             invariants=["Emit"]), "gen_tiny", wd, workers=12, timeout=1800, coverage=False, replay_to=tiny, seed=seed)
-    tinyl = [l for l in open(tiny) if '"div":false' in l and '"L":0' not in l and json.loads(l)["dod"] > 0][:3]
+    # non-dyadic weights on 7 labels: subsets with three and more components (order-dependent float sums)
+    core.tlc("Gen_TableRand", core.cfg_text(constants=dict(V=7, EMIN=6, EMAX=7, WSET={16, 20, 28, 32}, WD=12, DSET={1, 2}, EXTV=7, NSAMP=400),
+                                            invariants=["Emit"]), "gen_thirds", wd, workers=12, timeout=1800, coverage=False, replay_to=tiny, seed=seed + 1)
+    tinyl = [l for l in open(tiny) if '"div":false' in l and '"L":0' not in l and json.loads(l)["dod"] > 0]
+    tinyl = [l for l in tinyl if json.loads(l)["g"]["wd"] > 1000][:3] + [l for l in tinyl if json.loads(l)["g"]["wd"] == 12][:3]
     tl = [l for l in open(tpath) if '"div":false' in l and '"L":0' not in l]
     disc = [l for l in tl if json.loads(l)["l"][-1] > 0 and _disconnected(json.loads(l))]
     rl = [l for l in open(path)]
